@@ -70,7 +70,9 @@ pub fn replayable(sub: &str) -> bool {
 pub fn case_replayable(case: &Case) -> bool {
     match case {
         Case::Input(_) | Case::Ops { .. } => true,
-        Case::Text(t) => !t.starts_with("vpair:unreplayable:") && ["triple:", "pair:", "mpair:", "direction:", "arg:", "partsidx:", "vpair:"].iter().any(|p| t.starts_with(p)),
+        // (cases of the feature-less build are decided by the second binary and cannot be
+        // re-executed inside this one)
+        Case::Text(t) => !t.starts_with("vpair:unreplayable:") && !t.starts_with("direction:base:") && ["triple:", "pair:", "mpair:", "direction:", "arg:", "partsidx:", "vpair:"].iter().any(|p| t.starts_with(p)),
     }
 }
 
@@ -86,7 +88,7 @@ pub fn replay_case(_ctx: &Ctx, sub: &'static str, case: &Case) -> Vec<(String, S
                 "c02" => vec![&inputs::check_c02],
                 "c03" => vec![&inputs::check_c03],
                 "c04" => vec![&inputs::check_c04],
-                "c05" => vec![&inputs::check_c05, &values::replay_subtag_rt],
+                "c05" => vec![&inputs::check_c05, &values::replay_subtag_rt, &values::replay_ext_string],
                 "c13" => vec![&inputs::check_c13],
                 "c15" => vec![&subtags::check_c15],
                 "c17" => vec![&subtags::check_raw_roundtrip, &values::check_c17_input],
